@@ -136,8 +136,8 @@ func TestC23(t *testing.T) {
 					locs[k] = outs[k][name].GetSourceCodeInfo().GetLocation()
 					c23WellFormed(r, fid+"/"+md.name, md.name, dec, m.Types, st, locs[k], text)
 				}
-				c23CommentsOnly(r, fid, "extra-comments vs standard", locs[0], locs[1], text)
-				c23CommentsOnly(r, fid, "extra-comments+option-locations vs extra-option-locations", locs[2], locs[3], text)
+				c23CommentsOnly(r, fid, "extra-comments vs standard", st, locs[0], locs[1], text)
+				c23CommentsOnly(r, fid, "extra-comments+option-locations vs extra-option-locations", st, locs[2], locs[3], text)
 				c23LocationsOnly(r, fid, "extra-option-locations vs standard", dec, m.Types, locs[0], locs[2], text)
 				c23LocationsOnly(r, fid, "extra-comments+option-locations vs extra-comments", dec, m.Types, locs[1], locs[3], text)
 			}
@@ -496,7 +496,7 @@ func sameSpan(a, b []int32) bool {
 
 // c23CommentsOnly: `more` (an extra-comments mode) must have exactly the
 // (path, span) sequence of `std` and may only add comments.
-func c23CommentsOnly(r *vlib.Run, id, rel string, std, more []*descriptorpb.SourceCodeInfo_Location, text string) {
+func c23CommentsOnly(r *vlib.Run, id, rel string, st *srcText, std, more []*descriptorpb.SourceCodeInfo_Location, text string) {
 	r.Eval(text + "\x00" + rel)
 	w := func(extra map[string]any) map[string]any {
 		m := map[string]any{"relation": rel, "source": text}
@@ -506,7 +506,7 @@ func c23CommentsOnly(r *vlib.Run, id, rel string, std, more []*descriptorpb.Sour
 		return m
 	}
 	if len(std) != len(more) {
-		r.Violation("c23.extra-comments-changes-locations", rel+": number of locations differs", id, w(map[string]any{"standard": len(std), "extra": len(more)}))
+		r.Violation("c23.extra-comments-changes-locations", "number of locations differs", id, w(map[string]any{"standard": len(std), "extra": len(more)}))
 		return
 	}
 	seen := map[string]bool{}
@@ -514,24 +514,40 @@ func c23CommentsOnly(r *vlib.Run, id, rel string, std, more []*descriptorpb.Sour
 	for i := range std {
 		a, b := std[i], more[i]
 		if !sameSpan(a.Path, b.Path) || !sameSpan(a.Span, b.Span) {
-			r.Violation("c23.extra-comments-changes-locations", rel+": (path, span) sequence differs", id, w(map[string]any{"index": i, "standard": fmt.Sprint(a.Path, a.Span), "extra": fmt.Sprint(b.Path, b.Span)}))
+			r.Violation("c23.extra-comments-changes-locations", "(path, span) sequence differs at "+elementOfPath(a.Path), id, w(map[string]any{"index": i, "standard": fmt.Sprint(a.Path, a.Span), "extra": fmt.Sprint(b.Path, b.Span)}))
 			return
 		}
-		report := func(sig string, what string) {
+		report := func(what string) {
+			// where did the element start? a declaration whose first token is `group` is a group without label
+			elem := elementOfPath(a.Path)
+			if off, ok := st.offsetOf(a.Span[0], a.Span[1]); ok && strings.HasPrefix(st.text[off:], "group") && !isIdentByte(st.text[off+5]) && strings.HasSuffix(elem, "nested_type") {
+				elem = "message location of a group declared without a label (first token `group`)"
+			}
+			sig := "a comment of the base mode is missing or different in the extra-comments mode: " + elem
 			if seen[sig] {
 				return
 			}
 			seen[sig] = true
-			r.Violation("c23.extra-comments-loses-comment", rel+": "+sig, id, w(map[string]any{"path": a.Path, "span": a.Span, "what": what,
-				"standard location": fmt.Sprint(a), "extra-comments location": fmt.Sprint(b), "element": elementOfPath(a.Path)}))
+			where := ""
+			for _, o := range more {
+				for _, c := range locComments(o) {
+					for _, mine := range locComments(a) {
+						if c == mine && !sameSpan(o.Path, a.Path) {
+							where = fmt.Sprint("path ", o.Path, " (", elementOfPath(o.Path), ")")
+						}
+					}
+				}
+			}
+			r.Violation("c23.extra-comments-loses-comment", sig, id, w(map[string]any{"path": a.Path, "span": a.Span, "which": what,
+				"base-mode location": fmt.Sprint(a), "extra-comments location": fmt.Sprint(b), "the comment is now on": where}))
 		}
 		if a.LeadingComments != nil && (b.LeadingComments == nil || a.GetLeadingComments() != b.GetLeadingComments()) {
-			report("a leading comment of standard mode is missing or different ("+elementOfPath(a.Path)+")", "leading")
+			report("leading")
 		}
 		if a.TrailingComments != nil && (b.TrailingComments == nil || a.GetTrailingComments() != b.GetTrailingComments()) {
-			report("a trailing comment of standard mode is missing or different ("+elementOfPath(a.Path)+")", "trailing")
+			report("trailing")
 		}
-		// detached comments of standard mode must all still be there, in order
+		// detached comments of the base mode must all still be there, in order
 		j := 0
 		for _, d := range a.LeadingDetachedComments {
 			found := false
@@ -539,7 +555,7 @@ func c23CommentsOnly(r *vlib.Run, id, rel string, std, more []*descriptorpb.Sour
 				found = b.LeadingDetachedComments[j] == d
 			}
 			if !found {
-				report("a detached comment of standard mode is missing or different ("+elementOfPath(a.Path)+")", "detached")
+				report("detached")
 				break
 			}
 		}
@@ -588,7 +604,7 @@ func c23LocationsOnly(r *vlib.Run, id, rel string, dec *descriptorpb.FileDescrip
 		added++
 		pi := resolvePath(dec, types, b.Path)
 		if pi.optsAt < 0 || len(b.Path) < pi.optsAt+2 {
-			sig := rel + ": an added location is not inside an option value (" + elementOfPath(b.Path) + ")"
+			sig := "an added location is not inside an option value (" + elementOfPath(b.Path) + ")"
 			if !seen[sig] {
 				seen[sig] = true
 				next := "none"
@@ -600,7 +616,7 @@ func c23LocationsOnly(r *vlib.Run, id, rel string, dec *descriptorpb.FileDescrip
 		}
 	}
 	if j != len(std) {
-		r.Violation("c23.extra-locations-loses-location", rel+": a location of the base mode is missing, changed or out of order ("+elementOfPath(std[j].Path)+")", id,
+		r.Violation("c23.extra-locations-loses-location", "a location of the base mode is missing, changed or out of order ("+elementOfPath(std[j].Path)+")", id,
 			map[string]any{"relation": rel, "first unmatched base location": fmt.Sprint(std[j]), "matched": j, "of": len(std), "source": text})
 	}
 	r.ClassN(rel+": locations added", int64(added))
